@@ -1,12 +1,15 @@
 #!/bin/bash
 # Mutation sweep, stage B: run the relevant property checks against every mutant that survived the pinned suite.
-# usage: mutstageB.sh <mutdir> [budget_s]   (results: <mutdir>/<id>.B = "caught <prop> <class>" | "missed")
+# One scratch worktree + one scratch copy of sim/ + one build (normal and race) per mutant, then each property's
+# master with a small budget; stops at the first property that reports a violation.
+# usage: mutstageB.sh <mutdir> [budget_s]   (results: <mutdir>/<id>.B = "caught <prop> <class>" | "missed" | "trouble ...")
 M=$1; B=${2:-12}
-cd "$(dirname "$0")/.."
+ROOT=$(cd "$(dirname "$0")/.." && pwd)
+export GOFLAGS=-mod=mod GOPROXY=off GOSUMDB=off GOTOOLCHAIN=local
 props_for() {
   case "$1" in
-    wal.go|state.go|options.go) echo "C05 C01 C10 C14 C13 C04 C03 C06 C20 C02";;
-    segment/*) echo "C05 C02 C09 C10 C11 C15 C01 C06 C13";;
+    wal.go|state.go|options.go) echo "C05 C01 C10 C14 C13 C04 C03 C06 C20 C02 C08 C12";;
+    segment/*) echo "C05 C02 C09 C10 C11 C15 C01 C06 C13 C04";;
     fs/*) echo "C07 C13";;
     metadb/*) echo "C08 C07 C12 C05";;
     codec.go) echo "C12 C11 C15 C05";;
@@ -14,17 +17,27 @@ props_for() {
     migrate/*) echo "C19";;
   esac
 }
+WT=/tmp/wt/mutB; SIM=/tmp/mutB-sim
+mkdir -p /tmp/wt
 for a in $M/*.A; do
   id=$(basename $a .A)
   [ "$(cat $a)" = survived ] || continue
   [ -f $M/$id.B ] && continue
   f=$(python3 -c "import json;print([x['file'] for x in json.load(open('$M/index.json')) if x['id']=='$id'][0])")
+  git -C /repo worktree remove --force $WT 2>/dev/null; rm -rf $SIM; git -C /repo worktree prune
+  git -C /repo worktree add -q --detach $WT HEAD && git -C $WT apply $M/$id.diff || { echo "trouble apply" > $M/$id.B; continue; }
+  mkdir -p $SIM && cp -r $ROOT/sim/. $SIM/ && cp /repo/go.sum $SIM/go.sum && sed -i "s#=> /repo\$#=> $WT#" $SIM/go.mod && mkdir -p $SIM/bin
+  if ! (cd $SIM && go build -tags verif -o $SIM/bin/walsim ./cmd/walsim && go build -race -tags "verif edgefree" -gcflags='verif/sim/...=-race=false' -o $SIM/bin/walsim-race ./cmd/walsim) > $SIM/build.log 2>&1; then
+    echo "trouble build: $(tail -2 $SIM/build.log | tr '\n' ' ')" > $M/$id.B; echo "$id $f: trouble build"; continue
+  fi
   res="missed"
   for p in $(props_for $f); do
-    out=$(timeout 900 scripts/mutant.sh $M/$id.diff $p $B 2>&1)
-    if echo "$out" | grep -q "^VIOLATION"; then res="caught $p $(echo "$out" | grep -m1 '^  C' | cut -c1-160)"; break; fi
-    if echo "$out" | grep -q "CHECK-TROUBLE\|BUILD FAILED\|exit=2"; then res="trouble $p $(echo "$out" | tail -3 | tr '\n' ' ' | cut -c1-200)"; break; fi
+    RACEARG=""; case $p in C06|C14) RACEARG="-racebin $SIM/bin/walsim-race";; esac
+    out=$(VERIF_EVIDENCE_DIR=/tmp/mutB-evidence VERIF_BUDGET_S=$B timeout 900 $SIM/bin/walsim check -prop $p -tier quick -root $ROOT $RACEARG 2>&1)
+    if echo "$out" | grep -q "^VIOLATION"; then res="caught $p $(echo "$out" | grep -m1 '^  C' | cut -c1-170)"; break; fi
+    if echo "$out" | grep -q "CHECK-TROUBLE"; then res="trouble $p $(echo "$out" | grep -m2 -A1 'CHECK-TROUBLE' | tr '\n' ' ' | cut -c1-300)"; break; fi
   done
   echo "$res" > $M/$id.B
   echo "$id $f: $res"
 done
+git -C /repo worktree remove --force $WT 2>/dev/null; rm -rf $SIM /tmp/mutB-evidence; git -C /repo worktree prune
